@@ -16,6 +16,7 @@ package main
 import (
 	"go/ast"
 	"go/token"
+	"strings"
 )
 
 func init() { extraFactFns = append(extraFactFns, c18Facts) }
@@ -199,5 +200,375 @@ func c18Facts(fc *facts) {
 			})
 		}
 		fc.set("c18StartSeqNumIsFirstEntry", 1, found, "writeEntry(t, e): `if t.size == 0 { t.startSeqNum = e.SeqNum() }`")
+	}
+}
+
+// ---- structural facts (hard obligations: no correspondence can observe them) ----
+//
+// c18QueueSerial           bg.AsyncGroup.Enqueue runs the functions of one TaskQueue one at a time: the goroutine
+//                          it starts takes the queue's mutex before it calls the function taken from the queue's
+//                          channel and releases it only when that function has returned (deferred Unlock).
+// c18CompactOneQueue       every call of the compactor's Compact in dkv/db.go sits in a function handed to Enqueue
+//                          with one and the same package-level queue created by bg.NewQueue.
+// c18LevelListPersistent   LevelList.NewWithChangeSet clones the receiver's level slice, applies additions and
+//                          removals to the clone only and never assigns through the receiver; Level.tablesAdded /
+//                          tablesRemoved have value receivers and build their table set with Set.Added / Set.Diff,
+//                          which never write to the receiver (Added works on receiver.clone()).
+// c18DbLevelsReplacedOnly  package dkv never calls AddTables/RemoveTables on db.sstables: the field is only replaced
+//                          (NewWithChangeSet result, the empty list of New, the checkpoint's list in Start).
+//
+// Together: a LevelList value read by currentSSTables() is never changed afterwards (what `compactBegin` computing on
+// a snapshot needs) and at most one Compact call runs at a time (one pending change set).
+
+func init() { extraFactFns = append(extraFactFns, c18StructFacts) }
+
+func rootIdent(e ast.Expr) string {
+	for {
+		switch x := e.(type) {
+		case *ast.SelectorExpr:
+			e = x.X
+		case *ast.IndexExpr:
+			e = x.X
+		case *ast.StarExpr:
+			e = x.X
+		case *ast.ParenExpr:
+			e = x.X
+		case *ast.Ident:
+			return x.Name
+		default:
+			return ""
+		}
+	}
+}
+
+// writesThrough reports whether fn assigns to, increments, or deletes from something rooted at the identifier.
+func writesThrough(fn ast.Node, root string) bool {
+	bad := false
+	ast.Inspect(fn, func(x ast.Node) bool {
+		switch n := x.(type) {
+		case *ast.AssignStmt:
+			for _, l := range n.Lhs {
+				if _, plain := l.(*ast.Ident); !plain && rootIdent(l) == root {
+					bad = true
+				}
+			}
+		case *ast.IncDecStmt:
+			if _, plain := n.X.(*ast.Ident); !plain && rootIdent(n.X) == root {
+				bad = true
+			}
+		case *ast.CallExpr:
+			if selName(n.Fun) == "delete" && len(n.Args) > 0 && rootIdent(n.Args[0]) == root {
+				bad = true
+			}
+		}
+		return true
+	})
+	return bad
+}
+
+func c18StructFacts(fc *facts) {
+	// --- c18QueueSerial
+	{
+		f := parseFile("dkv/bg/async_group.go")
+		fn := findFuncOr(f, "AsyncGroup", "Enqueue")
+		ps := paramNames(fn)
+		ok := false
+		if len(ps) == 2 {
+			q := ps[0]
+			ast.Inspect(fn, func(x ast.Node) bool {
+				call, isCall := x.(*ast.CallExpr)
+				if !isCall || len(call.Args) != 1 {
+					return true
+				}
+				if _, sel := lastSel(call.Fun); sel != "Go" {
+					return true
+				}
+				lit, isLit := call.Args[0].(*ast.FuncLit)
+				if !isLit {
+					return true
+				}
+				lockAt, deferUnlock, recvAt, callAt, goStmt := -1, false, -1, -1, false
+				var taken string
+				for i, st := range lit.Body.List {
+					switch s := st.(type) {
+					case *ast.ExprStmt:
+						if c, isC := s.X.(*ast.CallExpr); isC {
+							if p, sel := lastSel(c.Fun); sel == "Lock" && rootIdent(c.Fun) == q && p != q && lockAt < 0 {
+								lockAt = i
+							}
+						}
+					case *ast.DeferStmt:
+						if _, sel := lastSel(s.Call.Fun); sel == "Unlock" && rootIdent(s.Call.Fun) == q {
+							deferUnlock = true
+						}
+					case *ast.AssignStmt:
+						if len(s.Lhs) == 1 && len(s.Rhs) == 1 {
+							if u, isU := s.Rhs[0].(*ast.UnaryExpr); isU && u.Op == token.ARROW && rootIdent(u.X) == q {
+								if id, isId := s.Lhs[0].(*ast.Ident); isId {
+									taken, recvAt = id.Name, i
+								}
+							}
+						}
+					case *ast.ReturnStmt:
+						for _, r := range s.Results {
+							if c, isC := r.(*ast.CallExpr); isC && selName(c.Fun) == taken && taken != "" {
+								callAt = i
+							}
+						}
+					case *ast.GoStmt:
+						goStmt = true
+					}
+					if es, isE := st.(*ast.ExprStmt); isE {
+						if c, isC := es.X.(*ast.CallExpr); isC && selName(c.Fun) == taken && taken != "" {
+							callAt = i
+						}
+					}
+				}
+				if lockAt >= 0 && deferUnlock && recvAt > lockAt && callAt > recvAt && !goStmt {
+					ok = true
+				}
+				return true
+			})
+		}
+		fc.set("c18QueueSerial", 1, ok, "bg.AsyncGroup.Enqueue: the started goroutine locks the queue's mutex, defers the unlock, then takes a function from the queue's channel and calls it")
+	}
+
+	// --- c18CompactOneQueue
+	{
+		f := parseFile("dkv/db.go")
+		queues := map[string]bool{}
+		for _, d := range f.Decls {
+			gd, isG := d.(*ast.GenDecl)
+			if !isG || gd.Tok != token.VAR {
+				continue
+			}
+			for _, sp := range gd.Specs {
+				vs := sp.(*ast.ValueSpec)
+				for i, n := range vs.Names {
+					if i < len(vs.Values) {
+						if c, isC := vs.Values[i].(*ast.CallExpr); isC {
+							if _, sel := lastSel(c.Fun); sel == "NewQueue" {
+								queues[n.Name] = true
+							}
+						}
+					}
+				}
+			}
+		}
+		used := map[string]bool{}
+		compactCalls, covered := 0, 0
+		var walk func(n ast.Node, q string)
+		walk = func(n ast.Node, q string) {
+			ast.Inspect(n, func(x ast.Node) bool {
+				if lit, isLit := x.(*ast.FuncLit); isLit {
+					// a closure that is not handed to Enqueue may run anywhere (go statement, errgroup.Go, callback)
+					walk(lit.Body, "")
+					return false
+				}
+				c, isC := x.(*ast.CallExpr)
+				if !isC {
+					return true
+				}
+				if p, sel := lastSel(c.Fun); sel == "Compact" && strings.HasSuffix(p, "compactor") {
+					compactCalls++
+					if q != "" {
+						covered++
+						used[q] = true
+					}
+				}
+				if _, sel := lastSel(c.Fun); sel == "Enqueue" && len(c.Args) == 2 {
+					if id, isId := c.Args[0].(*ast.Ident); isId && queues[id.Name] {
+						if lit, isLit := c.Args[1].(*ast.FuncLit); isLit {
+							walk(lit.Body, id.Name)
+							return false
+						}
+					}
+				}
+				return true
+			})
+		}
+		walk(f, "")
+		ok := compactCalls >= 1 && covered == compactCalls && len(used) == 1
+		fc.set("c18CompactOneQueue", 1, ok, "dkv/db.go: every compactor.Compact call inside a function given to Enqueue with one package-level bg.NewQueue queue")
+	}
+
+	// --- c18LevelListPersistent
+	{
+		ok := true
+		ll := parseFile("dkv/sst/level_list.go")
+		fn := findFuncOr(ll, "LevelList", "NewWithChangeSet")
+		recv := c18RecvName(fn)
+		clone, fresh := "", ""
+		for _, st := range fn.Body.List {
+			as, isAs := st.(*ast.AssignStmt)
+			if !isAs || len(as.Lhs) != 1 || len(as.Rhs) != 1 {
+				continue
+			}
+			id, isId := as.Lhs[0].(*ast.Ident)
+			if !isId {
+				continue
+			}
+			if c, isC := as.Rhs[0].(*ast.CallExpr); isC && selName(c.Fun) == "slices.Clone" && len(c.Args) == 1 {
+				if p, sel := lastSel(c.Args[0]); p == recv && sel == "levels" {
+					clone = id.Name
+				}
+			}
+			var lit *ast.CompositeLit
+			switch r := as.Rhs[0].(type) {
+			case *ast.UnaryExpr:
+				lit, _ = r.X.(*ast.CompositeLit)
+			case *ast.CompositeLit:
+				lit = r
+			}
+			if lit != nil && clone != "" {
+				for _, el := range lit.Elts {
+					if kvx, isKV := el.(*ast.KeyValueExpr); isKV && selName(kvx.Key) == "levels" && selName(kvx.Value) == clone {
+						fresh = id.Name
+					}
+				}
+			}
+		}
+		if recv == "" || clone == "" || fresh == "" || writesThrough(fn, recv) {
+			ok = false
+		}
+		mutators := 0
+		ast.Inspect(fn, func(x ast.Node) bool {
+			if c, isC := x.(*ast.CallExpr); isC {
+				if p, sel := lastSel(c.Fun); sel == "AddTables" || sel == "RemoveTables" {
+					mutators++
+					if p != fresh {
+						ok = false
+					}
+				}
+			}
+			return true
+		})
+		if mutators == 0 {
+			ok = false
+		}
+		// Level.tablesAdded / tablesRemoved: value receivers, new set from Added / Diff
+		lv := parseFile("dkv/sst/level.go")
+		for _, spec := range []struct{ name, setOp string }{{"tablesAdded", "Added"}, {"tablesRemoved", "Diff"}} {
+			m := findFuncOr(lv, "Level", spec.name)
+			if m.Recv == nil || len(m.Recv.List) != 1 {
+				ok = false
+				continue
+			}
+			if _, ptr := m.Recv.List[0].Type.(*ast.StarExpr); ptr {
+				ok = false
+			}
+			r := c18RecvName(m)
+			found := false
+			ast.Inspect(m, func(x ast.Node) bool {
+				if kvx, isKV := x.(*ast.KeyValueExpr); isKV && selName(kvx.Key) == "tables" {
+					if c, isC := kvx.Value.(*ast.CallExpr); isC {
+						if p, sel := lastSel(c.Fun); sel == spec.setOp && p == r+".tables" {
+							found = true
+						}
+					}
+				}
+				return true
+			})
+			if !found || writesThrough(m, r) {
+				ok = false
+			}
+		}
+		// ds.Set.Added works on a clone, Diff and clone never write to the receiver
+		set := parseFile("util/ds/set.go")
+		added := findFuncOr(set, "Set", "Added")
+		ar := c18RecvName(added)
+		cl := ""
+		for _, st := range added.Body.List {
+			if as, isAs := st.(*ast.AssignStmt); isAs && len(as.Lhs) == 1 && len(as.Rhs) == 1 {
+				if c, isC := as.Rhs[0].(*ast.CallExpr); isC {
+					if p, sel := lastSel(c.Fun); p == ar && sel == "clone" {
+						cl = selName(as.Lhs[0])
+					}
+				}
+			}
+		}
+		if cl == "" || writesThrough(added, ar) {
+			ok = false
+		}
+		ast.Inspect(added, func(x ast.Node) bool {
+			if c, isC := x.(*ast.CallExpr); isC {
+				if p, sel := lastSel(c.Fun); sel == "Add" && p != cl {
+					ok = false
+				}
+			}
+			return true
+		})
+		for _, name := range []string{"Diff", "clone"} {
+			m := findFuncOr(set, "Set", name)
+			r := c18RecvName(m)
+			if writesThrough(m, r) {
+				ok = false
+			}
+			ast.Inspect(m, func(x ast.Node) bool {
+				if c, isC := x.(*ast.CallExpr); isC {
+					if p, sel := lastSel(c.Fun); p == r && (sel == "Add" || sel == "Without") {
+						ok = false
+					}
+				}
+				return true
+			})
+		}
+		cloneFn := findFuncOr(set, "Set", "clone")
+		clones := 0
+		ast.Inspect(cloneFn, func(x ast.Node) bool {
+			if c, isC := x.(*ast.CallExpr); isC {
+				if n := selName(c.Fun); n == "maps.Clone" || n == "slices.Clone" {
+					clones++
+				}
+			}
+			return true
+		})
+		if clones < 2 {
+			ok = false
+		}
+		fc.set("c18LevelListPersistent", 1, ok, "NewWithChangeSet works on slices.Clone(receiver.levels) only; Level.tablesAdded/tablesRemoved (value receivers) use Set.Added/Diff; Set.Added adds to receiver.clone(); Diff/clone never write to the receiver")
+	}
+
+	// --- c18DbLevelsReplacedOnly
+	{
+		ok := true
+		for _, file := range []string{"dkv/db.go"} {
+			f := parseFile(file)
+			ast.Inspect(f, func(x ast.Node) bool {
+				switch n := x.(type) {
+				case *ast.CallExpr:
+					if p, sel := lastSel(n.Fun); (sel == "AddTables" || sel == "RemoveTables") && strings.HasSuffix(p, ".sstables") {
+						ok = false
+					}
+				case *ast.AssignStmt:
+					for i, l := range n.Lhs {
+						if _, sel := lastSel(l); sel != "sstables" {
+							continue
+						}
+						if _, plain := l.(*ast.Ident); plain {
+							continue
+						}
+						if i >= len(n.Rhs) {
+							ok = false
+							continue
+						}
+						switch r := n.Rhs[i].(type) {
+						case *ast.CallExpr:
+							if _, s2 := lastSel(r.Fun); s2 != "NewWithChangeSet" && s2 != "NewEmptyLevelList" {
+								ok = false
+							}
+						case *ast.SelectorExpr:
+							if r.Sel.Name != "Levels" {
+								ok = false
+							}
+						default:
+							ok = false
+						}
+					}
+				}
+				return true
+			})
+		}
+		fc.set("c18DbLevelsReplacedOnly", 1, ok, "dkv/db.go: db.sstables is only replaced (NewWithChangeSet / NewEmptyLevelList / checkpoint Levels), never changed through AddTables/RemoveTables")
 	}
 }
